@@ -124,7 +124,7 @@ def run(ctx):
     before = len(ctx.instances)
     nv = len(ctx.violations)
     p04.rule_k5(ctx, F)
-    p04.rule_k6(ctx, F)
+    p04.rule_k6(ctx, F, parts=("side",))     # which key an empty square carries / importer slot accounting is C04's concern
     for i in ctx.instances[before:]:
         i["rule"] = "C05.D4(" + i["rule"] + ")"
     for v in ctx.violations[nv:]:
